@@ -232,6 +232,7 @@ def mon_c14(k, domain, bind_port=None, wildcard=False):
     legacy = {}     # (userid, held key) -> ping/data queries of the session received since it went back to immediate mode
     legacy_t = {}   # (userid, held key) -> when the second of those arrived
     asked_ids = set()   # (address, DNS id) of every query datagram received
+    self_answered = set()   # (address, id, question, type) of the queries iodined answered itself
     lazy_req = {}   # userid -> False from the version answer that hands out the slot, True once lazy mode was asked for in it
     skip = fwd_causes(k, bind_port)
     triggers = set()
@@ -295,6 +296,22 @@ def mon_c14(k, domain, bind_port=None, wildcard=False):
                 if (kw["dst"], rid) not in asked_ids:
                     viol.append(("C14:relayed-reply-to-somebody-who-never-asked", "a %d-byte reply of the local DNS server with id %r was sent to %s, which never sent a query with that id"
                                  % (len(d), rid, kw["dst"]), {"time_us": ev[0], "datagram": d.hex()[:200]}))
+                    continue
+                # a reply that is handed on is an answer like any other: when it echoes a question, it uses up a query received
+                # from that address with that id and question - a query iodined has answered itself is not owed a second answer
+                # (how often a *forwarded* query's reply may be handed on when the local server repeats itself is C20's business)
+                try:
+                    rm = proto.parse_msg(d)
+                except proto.ParseError:
+                    continue
+                if rm.qr and rm.qd:
+                    rl, rt, _rc = rm.qd[0]
+                    rkey = (kw["dst"], rm.id, tuple(rl), rt)
+                    if pend.get(rkey, 0) > 0:
+                        pend[rkey] -= 1
+                    elif rkey in self_answered:
+                        viol.append(("C14:second-answer-by-relayed-reply", "a reply of the local DNS server was handed on to %s for id %d %r type %d, a query iodined had already answered itself"
+                                     % (kw["dst"], rm.id, b".".join(rl)[:50], rt), {"time_us": ev[0], "datagram": d.hex()[:300]}))
                 continue
             if _is_raw(d) or kw.get("cause") in skip or (bind_port and kw["dst"] == ("127.0.0.1", bind_port)):
                 continue
@@ -314,6 +331,7 @@ def mon_c14(k, domain, bind_port=None, wildcard=False):
                              {"time_us": ev[0], "datagram": d.hex()[:600]}))
                 continue
             pend[key] = n - 1
+            self_answered.add(key)
             if labels and labels[0][:1].lower() == b"o" and len(labels[0]) >= 3:
                 # the server's own acknowledgement of an options request says which mode the session is in from now on
                 try:
